@@ -28,6 +28,9 @@ func c38Run(arg string) explore.HistFn {
 	if strings.Contains(arg, "deep") {
 		maxOps = 6
 	}
+	if strings.Contains(arg, "deep7") {
+		maxOps = 7
+	}
 	return func(hist []string) explore.HistResult {
 		h := newH(world.Config{Caps: func(c *mqtt.Capabilities) { c.MaximumMessageExpiryInterval = 2 }})
 		var outstanding []uint16
@@ -194,9 +197,9 @@ func init() {
 		c.Rep.Level = "model_checking"
 		c.Rep.Assumption("actual counts are taken from the broker's own structures at quiescence (trie walk, retained map without $SYS topics, sum of in-flight maps) and from the harness's open established connections; the retained counter is not compared after a $SYS publication (the $SYS topics themselves are retained)")
 		if c.Quick() {
-			explore.RunBFS(c, "c38", "", 5, 70*time.Second)
+			explore.RunBFS(c, "c38", "deep", 6, 70*time.Second)
 		} else {
-			explore.RunBFS(c, "c38", "deep", 6, 11*time.Minute)
+			explore.RunBFS(c, "c38", "deep7", 7, 11*time.Minute)
 		}
 	})
 }
